@@ -59,7 +59,7 @@ pub enum Payload {
     /// n Sync messages back to back
     SyncStorm(u8),
     /// a well-formed request (not waiting for its reply): 0 SELECT, 1 BEGIN, 2 COMMIT, 3 Parse/Bind/Execute/Sync of a named
-    /// statement, 4 COPY t FROM STDIN, 5 lone Parse, 6 Bind/Execute/Sync of that name, 7 SET + SELECT
+    /// statement, 4 COPY t FROM STDIN, 5 lone Parse, 6 Bind/Execute/Sync of that name, 7 SET + SELECT, 8/9 a statement (simple / extended) the server rejects with an error message quoting non-UTF-8 bytes
     Valid(u8, u16),
     /// syntactically extreme SQL in a Query (or Parse + Sync) message
     Sql { shape: u8, n: u32, ext: bool },
@@ -142,7 +142,7 @@ fn payload_strategy() -> BoxedStrategy<Payload> {
         3 => prop_oneof![Just(b'B'), Just(b'E'), Just(b'D'), Just(b'd'), Just(b'c'), Just(b'f'), Just(b'S'), Just(b'C'), Just(b'H'), Just(b'p')].prop_map(Payload::Misplaced),
         4 => (prop_oneof![Just(b'P'), Just(b'B'), Just(b'D'), Just(b'C'), Just(b'Q'), Just(b'E')], 0u8..8).prop_map(|(c, k)| Payload::BadBody(c, k)),
         1 => (1u8..40).prop_map(Payload::SyncStorm),
-        4 => (0u8..8, 900u16..999).prop_map(|(k, n)| Payload::Valid(k, n)),
+        4 => (0u8..10, 900u16..999).prop_map(|(k, n)| Payload::Valid(k, n)),
         3 => (0u8..14, prop_oneof![Just(10u32), Just(60), Just(300), Just(3000), Just(30_000), Just(200_000)], any::<bool>()).prop_map(|(shape, n, ext)| Payload::Sql { shape, n, ext }),
     ]
     .boxed();
@@ -300,7 +300,7 @@ pub fn render(p: &Payload, cap: i32) -> Vec<u8> {
         }
         Payload::Valid(k, n) => {
             let tag = crate::sqllex::Tag { client: 10, stmt: *n as u32 }.render();
-            match k % 8 {
+            match k % 10 {
                 0 => proto::query(&format!("{} SELECT v FROM t", tag)),
                 1 => proto::query(&format!("{} BEGIN", tag)),
                 2 => proto::query(&format!("{} COMMIT", tag)),
@@ -320,7 +320,17 @@ pub fn render(p: &Payload, cap: i32) -> Vec<u8> {
                     v.extend_from_slice(&proto::sync());
                     v
                 }
-                _ => proto::query(&format!("{} SET work_mem TO '9'; SELECT v FROM t", tag)),
+                7 => proto::query(&format!("{} SET work_mem TO '9'; SELECT v FROM t", tag)),
+                // a statement the server rejects with a message that quotes bytes which are not UTF-8 (what PostgreSQL does with
+                // an unknown identifier under client_encoding LATIN1 / SQL_ASCII)
+                8 => proto::query(&format!("{} SELECT v FROM t /*@ err=0:42703 errraw=636166e9ff80 */", tag)),
+                _ => {
+                    let mut v = proto::parse("", &format!("{} SELECT v FROM t /*@ err=0:42703 errraw=e92fc328 */", tag), &[]);
+                    v.extend_from_slice(&proto::bind("", "", &[], &[], &[]));
+                    v.extend_from_slice(&proto::execute("", 0));
+                    v.extend_from_slice(&proto::sync());
+                    v
+                }
             }
         }
         Payload::Sql { shape, n, ext } => {
@@ -643,7 +653,7 @@ async fn run_case(c: &Case, ctx: &mut WorkerCtx) -> Outcome {
     let log = env.log();
     env.finish().await;
     // `SET` inside a transaction block that is then committed is outside what pgcat promises to undo (C02 excludes it)
-    let set_in_txn_possible = matches!(c.phase, Phase::InTxn) || c.payloads.iter().any(|p| matches!(p, Payload::Valid(k, _) if k % 8 == 1));
+    let set_in_txn_possible = matches!(c.phase, Phase::InTxn) || c.payloads.iter().any(|p| matches!(p, Payload::Valid(k, _) if k % 10 == 1));
     for (why, detail) in dirty_handovers(&log, c.cache) {
         if why == "guc-not-reset" && set_in_txn_possible {
             o.label("excluded:set-inside-committed-transaction");
